@@ -45,9 +45,17 @@ func (c *Ctx) RuleScanErr() *Result {
 			}
 			// length-limited reader calls are reported as such
 			f := staticCallee(&call.Call)
-			if isMeth(f, "bufio", "Reader", "ReadLine") || isMeth(f, "bufio", "Reader", "ReadSlice") {
+			if isMeth(f, "bufio", "Reader", "ReadLine") {
 				res.Instances++
-				res.undecided(load.FnName(fn)+":"+qualName(f), c.P.InstrPos(call), "length-limited line reading through bufio.Reader is not modelled; use a Scanner with an Err() check or an unbounded reader")
+				if resultValue(call, 1) == nil {
+					res.bad(load.FnName(fn)+":"+qualName(f), c.P.InstrPos(call), "bufio.Reader.ReadLine returns a line in pieces when it is longer than the reader's buffer (4096 bytes by default) and says so in isPrefix; that result is ignored here, so every piece of a long line is treated as a line of its own")
+				} else {
+					res.undecided(load.FnName(fn)+":"+qualName(f), c.P.InstrPos(call), "line reading through bufio.Reader.ReadLine with isPrefix handling is not modelled")
+				}
+			}
+			if isMeth(f, "bufio", "Reader", "ReadSlice") {
+				res.Instances++
+				res.undecided(load.FnName(fn)+":"+qualName(f), c.P.InstrPos(call), "length-limited reading through bufio.Reader.ReadSlice is not modelled; use a Scanner with an Err() check or an unbounded reader")
 			}
 		})
 	}
